@@ -41,6 +41,17 @@ def _int_method(ex, callee, argv):
     if meth in ("overflowing_add", "overflowing_sub", "overflowing_mul"):
         op = {"overflowing_add": "AddWithOverflow", "overflowing_sub": "SubWithOverflow", "overflowing_mul": "MulWithOverflow"}[meth]
         return ex.binop(op, a, argv[1])
+    if meth in ("to_be_bytes", "to_le_bytes") and hasattr(ex.dom, "uf_tables") and not a.conc():
+        t = ex.dom.term(a)
+        bs = [Sc(Sym(z3.Extract(w - 1 - 8 * i, w - 8 - 8 * i, t)), "u8") for i in range(w // 8)]
+        if meth == "to_le_bytes":
+            bs.reverse()
+        return Agg(bs, name="array")
+    if meth in ("from_be_bytes", "from_le_bytes") and hasattr(ex.dom, "uf_tables") and not all(x.conc() for x in argv[0].f):
+        arr = list(argv[0].f)
+        if meth == "from_le_bytes":
+            arr.reverse()
+        return Sc(Sym(z3.Concat(*[ex.dom.term(x) for x in arr])), ty)
     if meth == "to_be_bytes" or meth == "to_le_bytes":
         n = w // 8
         bs = []
@@ -292,7 +303,20 @@ def _unwrap(ex, callee, argv):
     raise Unsupported("unwrap of %r" % (v,))
 
 
+def _try_into_array(ex, callee, argv):
+    m = re.search(r"TryInto<(&?)\[(\w+); (\d+)\]>", callee)
+    n = int(m.group(3))
+    r = argv[0]
+    sl, ss, sn = _as_list_ref(ex, r)
+    if sn != n:
+        return Agg([Opaque("TryFromSliceError")], 1, "Result::Err")
+    if m.group(1) == "&":
+        return Agg([Ref(r.cell, r.path, (ss, n), r.mut)], 0, "Result::Ok")
+    return Agg([Agg([deep(x) for x in sl[ss:ss + sn]], name="array")], 0, "Result::Ok")
+
+
 TABLE = [
+    (re.compile(r"^<&(mut )?\[\w+\] as TryInto<&?\[\w+; \d+\]>>::try_into$"), _try_into_array),
     (re.compile(r"^core::num::<impl \w+>::\w+$"), _int_method),
     (re.compile(r"^<\w+ as From<\w+>>::from$"), _from),
     (re.compile(r"^<std::ops::Range<\w+> as IntoIterator>::into_iter$"), _into_iter),
